@@ -121,9 +121,9 @@ def build(transport):
                           resp=EMPTY if form == 'void' else Q('Resp'), service='Other', shortname='otherhost'))
     # RPCs named by Python builtins / words of the generator's reserved list that are not keywords: the client method, the sample's
     # call and the snippet metadata name the same method
-    for rpc in ('List', 'Open', 'Next', 'Hash', 'Type'):
+    for rpc in ('List', 'Open', 'Next', 'Hash', 'Type', 'Import', 'Global'):
         other.append(method(rpc, Q('Rq1'), Q('Resp'), http=('post', f'/v1/other/named/{rpc.lower()}', '*')))
-        cells.append(dict(id=f'unary/rpc-named-{rpc.lower()}', rpc=rpc, form='unary', kit='none', req=Q('Rq1'), resp=Q('Resp'),
+        cells.append(dict(id=f'unary/rpc-named-{rpc.lower()}', rpc=rpc, py=names.py_method(rpc), form='unary', kit='none', req=Q('Rq1'), resp=Q('Resp'),
                           service='Other', shortname='otherhost'))
     main = file('acme/smp/v1/samples.proto', P, messages=msgs, enums=[enum('Tone', 'TONE_UNSPECIFIED', 'LOUD', 'QUIET')],
                 services=[service('Smp', meths, host='smpapi.googleapis.com:443'),
